@@ -17,9 +17,16 @@ Definition find_handoff (n : string) : option handoff :=
 
 Definition is_gap_name (n : string) : bool := existsb (fun h => String.eqb (h_name h) n) gap_handoffs.
 
+(* status of every hand-off against the order table, computed once when this file is compiled (it is recompiled whenever
+   Gen/GenOrders.v changes) *)
+Definition all_status_c : list (string * bool) := Eval vm_compute in all_status.
+Definition gap_status_c : list (string * bool) := Eval vm_compute in gap_status.
+Definition ordered_c : list (string * bool) :=
+  Eval vm_compute in map (fun h => (h_name h, handoff_ok h && kinds_ok h)) (app handoffs gap_handoffs).
+
 (* a name that is not a hand-off of the model (e.g. "chaselev.slot_access") counts as "not ordered by the model" *)
 Definition ordered_by_model (n : string) : bool :=
-  match find_handoff n with Some h => handoff_ok h && kinds_ok h | None => false end.
+  match find (fun x => String.eqb (fst x) n) ordered_c with Some x => snd x | None => false end.
 
 Definition judge_tsan (names : list string) (gap_probe : bool) (reported : bool) : Z :=
   let all_ok := forallb ordered_by_model names in
@@ -28,9 +35,9 @@ Definition judge_tsan (names : list string) (gap_probe : bool) (reported : bool)
   else if all_ok then 0%Z else 1%Z.
 
 Definition judge_sites : list (string * list string) :=
-  filter (fun x => negb (match snd x with [] => true | _ => false end))
+  Eval vm_compute in filter (fun x => negb (match snd x with [] => true | _ => false end))
          (map (fun h => (h_name h, filter (fun s => negb (has_site s)) (app (h_off h) (h_take h)))) (app handoffs gap_handoffs)).
 
 (* the sites the proofs depend on, with the order currently declared there (for the evidence file) *)
 Definition used_sites : list (string * string * mo) :=
-  flat_map (fun h => map (fun s => (h_name h, s, site_mo s)) (app (h_off h) (h_take h))) (app handoffs gap_handoffs).
+  Eval vm_compute in flat_map (fun h => map (fun s => (h_name h, s, site_mo s)) (app (h_off h) (h_take h))) (app handoffs gap_handoffs).
